@@ -160,7 +160,13 @@ class Session:
             if name in ("get", "get_many", "refresh"):
                 a = list(args)
                 if name == "get_many":
-                    a = [list(args[0])]
+                    # the signature takes any Iterable[str]: lists, tuples, one-shot iterators and generators alike
+                    kinds = self.sc.get("containers") or ["list", "gen", "tuple", "iter"]
+                    self._cn = getattr(self, "_cn", 0) + 1
+                    kind = kinds[self._cn % len(kinds)]
+                    items = list(args[0])
+                    a = [items if kind == "list" else tuple(items) if kind == "tuple" else iter(items) if kind == "iter"
+                         else (x for x in items) if kind == "gen" else dict.fromkeys(items).keys() if kind == "keys" and len(set(items)) == len(items) else items]
                 if sync:
                     v = getattr(s, name)(*a)
                 else:
@@ -228,6 +234,20 @@ def build_reply(spec, req, sc, keys=None, model=None, rng=None):
     """Build one reply datagram from a spec and the parsed request."""
     if "raw" in spec:
         return bytes.fromhex(spec["raw"])
+    if "fill_total" in spec:
+        # one varbind (fill_oid, OCTET STRING of 'F's) sized so that the whole datagram has exactly fill_total octets
+        total = int(spec["fill_total"])
+        oid = spec.get("fill_oid", [1, 3, 6, 1, 4, 1, 1])
+        x = max(0, total - 64)
+        d = b""
+        for _ in range(10):
+            sp = {k: v for k, v in spec.items() if k != "fill_total"}
+            sp["vbs"] = ber.varbind(ber.enc_oid(oid), ber.enc_value("os", b"F" * x)).hex()
+            d = build_reply(sp, req, sc, keys, model, rng)
+            if len(d) == total:
+                break
+            x = max(0, x + total - len(d))
+        return d
     pdu_req = req.get("pdu") or {}
     rid = spec.get("rid", "same")
     if isinstance(rid, str) and rid.startswith("same"):
@@ -387,6 +407,7 @@ def run_scenario(g, sc, model=None, rng=None):
             r["wall"] = round(time.time() - t0, 4)
             if st.get("settle"):
                 time.sleep(st["settle"])
+            agent.quiesce()
             r["emitted"] = [d.hex() for d in agent.take()]
             r["requests"] = [summarise(q) for q in state["reqs"]]
             r["exchanges"] = list(state["exchanges"])
